@@ -59,9 +59,15 @@ def run_one_shard(pid: str, spec: dict, workdir: str, i: int) -> dict:
     t0 = time.time()
     try:
         with open(err_path, "w") as ef:
+            # everything a shard (and the processes of the system under test it starts) puts into its temp directory -- spill
+            # directories of shm servers that get killed, scenario specs -- lives under the run's work directory and goes with it
+            tmpdir = os.path.join(workdir, f"tmp{i}")
+            os.makedirs(tmpdir, exist_ok=True)
+            env = child_env(spec.get("hash_seed"))
+            env["TMPDIR"] = tmpdir
             p = subprocess.Popen(
                 [PY, "-m", "vlib.common.shard", pid, spec_path, out_path],
-                env=child_env(spec.get("hash_seed")), cwd=VERIF_DIR,
+                env=env, cwd=VERIF_DIR,
                 stdout=ef, stderr=ef, start_new_session=True,
             )
             try:
